@@ -1042,3 +1042,14 @@ M('c17-cached-pack-end', 'C17', """                    obj_dict['offset'] = pack
                         with open(self._get_loose_path_from_hashkey(loose_hashkey), 'rb') as loose_handle:""", """                    obj_dict['offset'] = pack_end
                     try:
                         with open(self._get_loose_path_from_hashkey(loose_hashkey), 'rb') as loose_handle:""", 'C17.R3')
+
+# ------------------------------------------------------------------------------------------------ C07 (round 2: arithmetic shape of the coordinate mapping)
+M('c07-read-zero-reads-all', 'C07', "        if size is None or size < 0:\n            stream = self._fhandle.read(remaining_bytes)", "        if size is None or size <= 0:\n            stream = self._fhandle.read(remaining_bytes)", 'C07.R3', U)
+M('c07-seek-off-by-one', 'C07', "        new_pos = self._offset + target\n", "        new_pos = self._offset + target - 1\n", 'C07.R7', U)
+M('c07-update-pos-no-offset', 'C07', "        self._pos = self._fhandle.tell() - self._offset\n        assert", "        self._pos = self._fhandle.tell()\n        assert", 'C07.R7', U)
+M('c07-decompresser-pos-not-advanced', 'C07', "        self._pos += len(to_return)\n", "        pass\n", 'C07.R8', U)
+M('c07-forward-seek-overshoot', 'C07', "            content = self.read(min(read_chunk_size, target - self.tell()))", "            content = self.read(read_chunk_size)", 'C07.R8', U)
+M('c07-buffer-cut-mismatch', 'C07', "            self._internal_buffer[size:],\n", "            self._internal_buffer[size + 1 :],\n", 'C07.R8', U)
+M('c07-no-rewind-on-backward', 'C07', "            # (I always know how to go back to zero). Otherwise, I just continue from where I am.\n            self.seek(0)", "            # (I always know how to go back to zero). Otherwise, I just continue from where I am.\n            pass", 'C07.R8', U)
+T('c07-twin-split-two-statements', 'C07', "        to_return, self._internal_buffer = (\n            self._internal_buffer[:size],\n            self._internal_buffer[size:],\n        )", "        to_return = self._internal_buffer[:size]\n        self._internal_buffer = self._internal_buffer[size:]", U)
+T('c07-twin-new-pos-commuted', 'C07', "        new_pos = self._offset + target\n", "        new_pos = target + self._offset\n", U)
